@@ -65,7 +65,7 @@ def parseRun (s : String) : Option (List Obs) := (items s ";").mapM parseObs
 
 /-- `E`/`F` = the head could not be read -/
 def parseHead (s : String) : Option (Option Int) :=
-  if s = "E" || s = "F" then some none else (s.toInt?).map some
+  if s.startsWith "E" || s.startsWith "F" then some none else (s.toInt?).map some
 
 /-- retry ops: `okOut` is printed when the guard passes -/
 def retryVerdict (name : String) (head : Option Int) (ready : Int → Bool) (confirmedB : Int → Bool)
@@ -137,6 +137,10 @@ def handle (op : String) (args : List String) (impl : String) : Option Verdict :
     let some latest := parseHead latest | return bad
     let some conf := conf.toInt? | return bad
     if receipt = "E" then return ⟨"err", impl == "err", "evmretrytx:rpc-error"⟩
+    -- a receipt without a block number: the block of the deposit is unknown, so nothing can be called confirmed; the code
+    -- as it is dereferences nil there (the RetryV1 handler recovers and emits nothing) unless the head query failed first
+    if receipt = "N" then
+      return ⟨if latest.isNone then "err" else "panic", !(impl.startsWith "ok"), "evmretrytx:no-block-number"⟩
     let some r := receipt.toInt? | return bad
     return retryVerdict "evmretrytx" latest (fun l => retryReady l r conf) (fun l => decide (conf ≤ l - r)) "ok:2" impl "err" false
   | "evmretrymsg", [latest, h, conf] => some <| Id.run do
